@@ -4,8 +4,8 @@ import SaModel.Lemmas.C01New
 and metadata `md` (what `build_builder` establishes; unchanged by every push because it only looks at the part of
 the state that survives `take`).  R2 relates `push` to `Spec.interpDT`, which is indexed by the field.
 
-Coverage of R2 (see notes/C01.md): all families except byte VIEW builders and dictionaries, for which `Shape`
-is `False` for now (R1 covers them).
+Coverage of R2 (see notes/C01.md): all families except dictionaries whose value builder is not a
+Utf8/LargeUtf8 builder, for which `Shape` is `False` (R1 covers them).
 -/
 namespace SaModel.Build
 open SaModel SaModel.Spec
@@ -26,13 +26,16 @@ def kindOf (dt : DataType) : Option LeafKind :=
 def bytesDT : BytesTy → DataType
   | .utf8 => .utf8 | .largeUtf8 => .largeUtf8 | .binary => .binary | .largeBinary => .largeBinary
 
+def viewDT : ViewTy → DataType
+  | .utf8View => .utf8View | .binaryView => .binaryView
+
 mutual
 def Shape : B → DataType → Bool → Metadata → Prop
   | .null _ _, dt, _, md => dt = .null ∧ isUnknownVariant .null md = false
   | .unknownVariant _, dt, _, md => dt = .null ∧ isUnknownVariant .null md = true
   | .leaf _ k v _, dt, n, _ => kindOf dt = some k ∧ v.isSome = n
   | .bytes _ ty v _ _, dt, n, _ => dt = bytesDT ty ∧ v.isSome = n
-  | .bytesView _ _ _ _ _, _, _, _ => False
+  | .bytesView _ ty v _ _, dt, n, _ => dt = viewDT ty ∧ v.isSome = n
   | .fixedSizeBinary _ k _ v _ _, dt, n, _ => dt = .fixedSizeBinary (k : Int) ∧ v.isSome = n
   | .list _ large _ v _ el, dt, n, _ =>
     v.isSome = n ∧ ∃ cname cdt cn cmd,
@@ -44,7 +47,8 @@ def Shape : B → DataType → Bool → Metadata → Prop
       dt = .map (.mk ename (.struct (.cons (.mk kn kdt knl kmd) (.cons (.mk vn vdt vnl vmd) rest))) en emd) sorted ∧
       Shape ks kdt knl kmd ∧ Shape vs vdt vnl vmd
   | .struct _ _ v fs _ _ _, dt, n, _ => v.isSome = n ∧ ∃ sfs, dt = .struct sfs ∧ ShapeL fs sfs
-  | .dictionary _ _ _ _, _, _, _ => False
+  | .dictionary _ idx vals _, dt, n, _ =>
+    (∃ kdt vdt, dt = .dictionary kdt vdt) ∧ idx.isIntLeaf = true ∧ idx.isNullable = n ∧ vals.isUtf8B = true
   | .union _ fs _ _ _, dt, _, _ => ∃ ufs mode, dt = .union ufs mode ∧ ShapeU fs ufs 0
 def ShapeL : BL → Fields → Prop
   | .nil, .nil => True
@@ -67,7 +71,7 @@ theorem Shape_takeRest : ∀ (b : B) (dt : DataType) (n : Bool) (md : Metadata),
   | .unknownVariant _, _, _, _ => by simp [takeRest, Shape]
   | .leaf _ _ v _, _, _, _ => by simp [takeRest, Shape, isSome_map_nil]
   | .bytes _ _ v _ _, _, _, _ => by simp [takeRest, Shape, isSome_map_nil]
-  | .bytesView _ _ _ _ _, _, _, _ => by simp [takeRest, Shape]
+  | .bytesView _ _ v _ _, _, _, _ => by simp [takeRest, Shape, isSome_map_nil]
   | .fixedSizeBinary _ _ _ v _ _, _, _, _ => by simp [takeRest, Shape, isSome_map_nil]
   | .list _ _ _ v _ el, dt, n, md => by
     simp only [takeRest, Shape, isSome_map_nil]
@@ -93,7 +97,8 @@ theorem Shape_takeRest : ∀ (b : B) (dt : DataType) (n : Bool) (md : Metadata),
     constructor
     · rintro ⟨h1, sfs, h2, h3⟩; exact ⟨h1, sfs, h2, (ShapeL_takeRest fs sfs).1 h3⟩
     · rintro ⟨h1, sfs, h2, h3⟩; exact ⟨h1, sfs, h2, (ShapeL_takeRest fs sfs).2 h3⟩
-  | .dictionary _ _ _ _, _, _, _ => by simp [takeRest, Shape]
+  | .dictionary _ idx vals _, _, _, _ => by
+    simp only [takeRest, Shape, isIntLeaf_takeRest, isUtf8B_takeRest, isNullable_takeRest]
   | .union _ fs _ _ _, dt, n, md => by
     simp only [takeRest, Shape]
     constructor
